@@ -16,7 +16,7 @@ SPEC = dict(
                 "edges (any reachable cycle) is never painted successfully by a client that does not draw from its cache, and is reported "
                 "as PaintCycleDetected/DepthLimitExceeded when all references resolve. The model is tied to the code on every run: "
                 "~1000 generated paint graphs (all 32 paint formats, chains of 61..66 edges, rho-shaped cycles, errors after a push, "
-                "dangling references, clip boxes of every shape incl. inverted / zero-area / variable-crossing on root and nested glyphs, v0 tables) are compiled with write-fonts, painted by the real code under 4 client behaviours, and "
+                "dangling references, identity / exactly cancelling brush transforms under PaintGlyph, clip boxes of every shape incl. inverted / zero-area / variable-crossing on root and nested glyphs, v0 tables) are compiled with write-fonts, painted by the real code under 4 client behaviours, each with a client overriding fill_glyph and one relying on the trait's default body (both streams compared), and "
                 "result class + structural callback stream are compared with the model under vm_compute."),
     level_note=("Trusted: Coq kernel; the hand-written model coq/C13/Model.v (agreement with skrifa is checked on generated cases, not proved); "
                 "the harness generator. Floats are abstracted: whether a gradient emits a fill is data of the abstract node (chosen by the "
